@@ -1,5 +1,5 @@
 \* HEAD looked up and stored like GET: a GET is answered with the body-less response produced for a HEAD
-CONSTANTS Users = {"u1"} Urls = {"a"} MaxSteps = 3 CacheHead = TRUE
+CONSTANTS Users = {"u1"} Urls = {"a"} MaxSteps = 3 CacheHead = TRUE CacheFirst = FALSE
 SPECIFICATION SpecH
 PROPERTIES OwnOrCachedGet
 CHECK_DEADLOCK FALSE
